@@ -8,7 +8,7 @@ use crate::rng::Rng;
 use crate::Opts;
 use serde_json::json;
 
-const SRC: &str = "foo(abc, 12);\nfoo(1, [2, 3], 'x');\nlet HTTPÉtat = 1;\nclass A { m() { return foo(this.x); } }\nconsole.log(foo(1), bar(2));\n// ast-grep-ignore\nbar(3);\n";
+const SRC: &str = "foo(abc, 12);\nfoo(1, [2, 3], 'x');\nlet HTTPÉtat = 1;\nlet XMLÀb = 1;\nlet ÉÉt = 1;\nclass A { m() { return foo(this.x); } }\nconsole.log(foo(1), bar(2));\n// ast-grep-ignore\nbar(3);\n";
 
 fn base_rule(id: &str, body: &str) -> String {
   format!("id: {id}\nlanguage: TypeScript\nmessage: m\nrule:\n{body}")
@@ -26,12 +26,26 @@ fn gen(rng: &mut Rng, k: usize) -> (&'static str, String) {
     2 => ("", base_rule("r", &format!("  kind: number\n  nthChild:\n    position: {}\n    reverse: {}\n    ofRule:\n      kind: {}\n", n(rng), ["true", "false", "1", "''"][rng.below(4)], ["number", "nope", "''", "1"][rng.below(4)]))),
     3 => ("", format!("{}transform:\n  C:\n    substring:\n      source: {}\n      startChar: {}\n      endChar: {}\nfix: $C\n", base_rule("r", "  pattern: foo($A, $B)\n"), st(rng), n(rng), n(rng))),
     4 => ("", format!("{}transform:\n  C:\n    replace:\n      source: $A\n      replace: {}\n      by: {}\nfix: x$C\n", base_rule("r", "  pattern: foo($A, $B)\n"), st(rng), st(rng))),
-    5 => ("", format!("{}transform:\n  C:\n    convert:\n      source: {}\n      toCase: {}\n      separatedBy: [{}]\nfix: $C\n", base_rule("r", "  pattern: let $A = 1\n"), ["$A", "'$A'", "$$$A", "''"][rng.below(4)], ["camelCase", "snakeCase", "kebabCase", "pascalCase", "upperCase", "lowerCase", "capitalize", "nope"][rng.below(8)], ["caseChange", "dash", "underscore", "dot", "slash", "space", "nope"][rng.below(7)])),
+    5 => {
+      let sep = match rng.below(4) {
+        0 | 1 => String::new(),
+        2 => "      separatedBy: [caseChange]\n".to_string(),
+        _ => format!("      separatedBy: [{}]\n", ["caseChange, dash", "dash", "underscore", "dot", "slash", "space", "nope"][rng.below(7)]),
+      };
+      ("", format!("{}transform:\n  C:\n    convert:\n      source: {}\n      toCase: {}\n{sep}fix: $C\n", base_rule("r", "  pattern: let $A = 1\n"), ["$A", "$A", "'$A'", "$$$A", "''"][rng.below(5)],
+        ["camelCase", "snakeCase", "kebabCase", "pascalCase", "upperCase", "lowerCase", "capitalize", "nope"][(k / 20) % 8]))
+    }
     6 => ("", base_rule("r", &format!("  regex: {}\n  kind: identifier\n", st(rng)))),
     7 => ("", base_rule("r", &format!("  kind: number\n  range:\n    start: {{line: {}, column: {}}}\n    end: {{line: {}, column: {}}}\n", n(rng), n(rng), n(rng), n(rng)))),
     8 => ("", format!("{}fix:\n  template: {}\n  expandStart: {{regex: {}, stopBy: {}}}\n  expandEnd: {{kind: {}}}\n", base_rule("r", "  pattern: foo($$$A)\n"), st(rng), st(rng), ["end", "neighbor", "nope", "{kind: number}"][rng.below(4)], ["number", "nope"][rng.below(2)])),
     // reference cycles through every operator
-    9 => ("", format!("{}utils:\n  A:\n    {}:\n      - matches: B\n  B:\n    not:\n      matches: A\n", base_rule("r", "  matches: A\n  kind: number\n"), ["all", "any"][rng.below(2)])),
+    9 => ("", if k / 20 % 2 == 0 {
+        format!("{}utils:\n  A:\n    {}:\n      - matches: B\n  B:\n    not:\n      matches: A\n", base_rule("r", "  matches: A\n  kind: number\n"), ["all", "any"][rng.below(2)])
+      } else {
+        // the back edge sits in a composite key next to a `matches` key of the same object
+        let comp = ["not:\n      matches: B", "all:\n      - matches: B", "any:\n      - matches: B\n      - kind: number"][rng.below(3)];
+        format!("{}utils:\n  A:\n    matches: C\n    {comp}\n  B:\n    matches: A\n  C:\n    kind: number\n", base_rule("r", "  matches: A\n  kind: number\n"))
+      }),
     10 => ("", format!("{}utils:\n  U:\n    nthChild:\n      position: 1\n      ofRule:\n        matches: U\n", base_rule("r", "  matches: U\n  kind: number\n"))),
     11 => ("relational-util-cycle", format!("{}utils:\n  A:\n    {}:\n      matches: B\n      stopBy: end\n  B:\n    {}:\n      matches: A\n      stopBy: end\n", base_rule("r", "  kind: number\n  matches: A\n"), ["inside", "follows"][k / 20 % 2], ["has", "precedes"][k / 20 % 2])),
     12 => ("", format!("{}transform:\n  A1:\n    substring: {{source: $B1}}\n  B1:\n    substring: {{source: {}}}\n", base_rule("r", "  pattern: foo($A, $B)\n"), ["$A1", "$B1", "$C1", "$A"][rng.below(4)])),
